@@ -17,7 +17,7 @@ RULE = (
     "reduced field palette), each pad in {'', ' ', '   ', tab, ' tab '}; special forms: time-like values HH:MM[:SS] "
     "for all 24 hours with/without dates and colon-bearing ~Parameter descriptions, no-period lines NAME : VALUE, "
     "numeric unit '1000 lbf'; oracle: read_header_line returns exactly the four stripped fields; a second family goes "
-    "through lasio.read; non-trivial = line with at least one non-empty field besides the mnemonic"
+    "through lasio.read (4 title spellings per section kind, versions 1.2/2.0, three mnemonic cases, the special forms under every title); non-trivial = line with at least one non-empty field besides the mnemonic"
 )
 ASSUMPTIONS = [
     "p2 (unit/value gap) is non-empty when the value is non-empty (the unit ends at the first blank)",
@@ -201,6 +201,8 @@ def gen_viaread(si):
 
 
 def check_point(pt):
+    from ..core import inputs as _inputs
+    _inputs.process_prelude()   # explored in a process that has already read many other files (see core/inputs.py)
     kind = pt[0]
     if kind == "grid":
         vio, n, nt = run_lines(gen_grid(pt[1], pt[2], pt[3], pt[4]))
